@@ -411,10 +411,15 @@ func do(line string) string {
 		return "bad-op"
 	}
 	if isCallerOp(ws[0]) {
+		restorePasswd()
 		return doCaller(line, ws)
 	}
 	if isRequestOp(ws[0]) {
+		restorePasswd()
 		return doRequest(line, ws)
+	}
+	if isPasswdOp(ws[0]) {
+		return doPasswd(line, ws)
 	}
 	pb, before := snapshot()
 	szBefore := stride
